@@ -383,6 +383,7 @@ class Model:
             return A if c else B  ->  if c: return A;  return B
             a_ = self.a; .. a_ ..  ->  .. self.a ..   (a_ bound at the top of the method only, self.a never stored in it)
             PAIR[bool(c)]     ->  PAIR[1] if c else PAIR[0]   (PAIR a two-element class / module constant)
+            x = A if c else x     ->  if c: x = A
             with R.cm() as v: B   ->  pre; v = E; B; post      (cm a @contextmanager method `pre; yield E; post` of the module)
         """
         import re as _re
@@ -433,6 +434,20 @@ class Model:
                 n = self.generic_visit(n)
                 if isinstance(n.test, ast.UnaryOp) and isinstance(n.test.op, ast.Not):
                     n.test, n.body, n.orelse = n.test.operand, n.orelse, n.body
+                return n
+
+            def visit_Assign(self, n):
+                n = self.generic_visit(n)
+                # x = A if c else x   ->   if c: x = A        (x a name or a plain attribute chain: keeping its value is no store)
+                if len(n.targets) == 1 and isinstance(n.value, ast.IfExp) and isinstance(n.targets[0], (ast.Name, ast.Attribute)) and pure(n.targets[0]):
+                    t = n.targets[0]
+                    tl = ast.unparse(t)
+                    e = n.value
+                    keep_else, keep_body = pure(e.orelse) and ast.unparse(e.orelse) == tl, pure(e.body) and ast.unparse(e.body) == tl
+                    if keep_else != keep_body:
+                        test = e.test if keep_else else ast.copy_location(ast.UnaryOp(op=ast.Not(), operand=e.test), e.test)
+                        val = e.body if keep_else else e.orelse
+                        return ast.copy_location(ast.If(test=test, body=[ast.copy_location(ast.Assign(targets=[t], value=val), n)], orelse=[]), n)
                 return n
 
         def named_results(fn_node):
